@@ -338,6 +338,37 @@ func inputsFor(c *circuit.Circuit, n, variant int) []string {
 	return res
 }
 
+// negInputsFor: negative values (variant 0: small negatives and -1, variant 1: the most negative value and mixed
+// signs), each representable in the input's width as a signed number.
+func negInputsFor(c *circuit.Circuit, n, variant int) []string {
+	var res []string
+	for i := 0; i < n; i++ {
+		w := int(c.Inputs[i].Type.Bits)
+		half := new(big.Int).Lsh(big.NewInt(1), uint(w-1))
+		var v *big.Int
+		switch {
+		case w <= 1:
+			v = big.NewInt(int64(i % 2))
+		case variant == 0 && i%2 == 0:
+			v = new(big.Int).Neg(big.NewInt(int64(3 + 2*i)))
+			if v.CmpAbs(half) > 0 {
+				v = big.NewInt(-1)
+			}
+		case variant == 0:
+			v = big.NewInt(-1)
+		case i%2 == 0:
+			v = new(big.Int).Neg(half)
+		default:
+			v = big.NewInt(int64(5 + i))
+			if v.Cmp(half) >= 0 {
+				v = big.NewInt(1)
+			}
+		}
+		res = append(res, v.String())
+	}
+	return res
+}
+
 func perms(n int) [][]int {
 	var res [][]int
 	a := make([]int, n)
@@ -413,6 +444,13 @@ func work(ctx *runner.Ctx) {
 				}
 				for _, o := range orders {
 					data = append(data, cs{N: n, Prog: prog, Inputs: inputsFor(c, n, variant), Triples: reqs, Order: o, P: 0, F: 1, Seed: seed + uint64(variant)})
+				}
+				// the same session with inputs handed over as NEGATIVE integers (what IOArg.Parse returns for "-5"):
+				// the wires carry their two's complement bits
+				if variant == 0 && (!quick || prog <= 2) {
+					for _, nv := range []int{0, 1} {
+						data = append(data, cs{N: n, Prog: prog, Inputs: negInputsFor(c, n, nv), Triples: []int{1}, Order: ident(n), P: 0, F: 1, Seed: seed})
+					}
 				}
 			}
 		}
